@@ -406,8 +406,9 @@ func (d *LineDetector) buildLines(lineGroups [][]text.TextFragment, pageWidth fl
 		// Calculate indentation (distance from left margin)
 		line.Indentation = line.BBox.X
 
-		// Skip lines that are too narrow
-		if line.BBox.Width < d.config.MinLineWidth {
+		// Skip lines that are too narrow to be anything but noise - but never a
+		// line that carries text (a lone page number or a narrow glyph is content)
+		if line.BBox.Width < d.config.MinLineWidth && strings.TrimSpace(line.Text) == "" {
 			continue
 		}
 
